@@ -18,6 +18,7 @@ FUNCTIONS['ctl'] = ['_checkAtomicProposition', '_checkNot', '_checkEX', '_checkO
 FUNCTIONS['rewrite'] = ['LNot'] + ['%s.get_equivalent_restricted_formula' % c for c in
                                    ('AtomicProposition', 'Not', 'A', 'E', 'X', 'F', 'G', 'Or', 'And', 'Imply', 'U', 'R')]
 FUNCTIONS['rewrite'] += ['EX', 'EG', 'EU', 'CTL.A.get_equivalent_restricted_formula', 'CTL.E.get_equivalent_restricted_formula']
+FUNCTIONS['fair'] = ['Kripke.get_fair_states.<locals>.is_a_fair_SCC', 'Kripke.get_fair_states', 'Kripke.label_fair_states', 'CTL.modelcheck(fair)']
 FUNCTIONS['ltl'] = ['LTL.modelcheck']
 FUNCTIONS['ctls'] = ['_remove_state_subformulas', '_checkQuantifiedFormula', 'CTLS.modelcheck']
 FUNCTIONS['bdd'] = ['find_isomorph', 'BDDNode.__reset__', 'BDDNonTerminalNode.__reset__', 'BDDNonTerminalNode.__new__']
@@ -32,8 +33,9 @@ PROPERTY_FUNCTIONS = {
                                'DiGraph.get_subgraph', 'DiGraph.get_reversed_graph', 'DiGraph.add_edge', 'DiGraph.add_node',
                                'DiGraph.nodes', 'DiGraph.next', 'DiGraph.get_reachable_set_from'],
     'C07': FUNCTIONS['ctl'] + ['Kripke.clone', 'Kripke.labels', 'Kripke.states', 'Kripke.next', 'Kripke.transitions_iter',
-                               'DiGraph.get_subgraph', 'DiGraph.get_reversed_graph', 'DiGraph.get_reachable_set_from'] + FUNCTIONS['ctls'] + FUNCTIONS['ltl'],
+                               'DiGraph.get_subgraph', 'DiGraph.get_reversed_graph', 'DiGraph.get_reachable_set_from'] + FUNCTIONS['ctls'] + FUNCTIONS['ltl'] + FUNCTIONS['fair'],
     'C19': FUNCTIONS['ctl'] + ['Kripke.labels', 'Kripke.states', 'Kripke.next', 'Kripke.transitions_iter'] + FUNCTIONS['ctls'] + FUNCTIONS['ltl'],
+    'C15': FUNCTIONS['fair'] + ['Kripke.clone', 'Kripke.labels', 'Kripke.next', 'DiGraph.get_reversed_graph', 'DiGraph.get_reachable_set_from'],
     'C13': FUNCTIONS['graph'],
     'C14': FUNCTIONS['kripke'] + FUNCTIONS['graph'],
 }
@@ -78,6 +80,10 @@ TRUSTED = {
             'it may still collide with an atom of the formula, KF-C19-2)',
             '_remove_state_subformulas / _checkQuantifiedFormula / CTLS.modelcheck (object formula, F=None) are under proof for FRAME and SAFETY only (owned by C07 / C19): '
             'what the reduction computes (relabelling + substitution lemma) is not stated; bounded only'],
+    'C15': ['FRAME and SAFETY only ("no call raises an internal error or modifies K"): is_a_fair_SCC, get_fair_states, label_fair_states and CTL.modelcheck with F (object formula) '
+            'write nothing that existed before the call except the CONTENTS of label sets of the structure they are applied to - which in CTL.modelcheck is the clone; the result is a new set of states',
+            'ASSUMED: contract of compute_SCCs (C12, bounded); F is a container of existing set objects; get_equivalent_non_fair_formula returns a documented CTL state formula and touches no structure',
+            'what is computed (fair states, fair semantics) is wrong on the pinned tree (KF-C15-1/2/3) and is decided by the bounded check against defect models; LTL and CTL* with F: bounded only'],
     'C07': ['frame obligations cover: the CTL labelling functions and CTL.modelcheck (object formula, F=None); LTL.modelcheck wrapper (given the assumed _checkE_path_formula contract); '
             'CTLS.modelcheck, _remove_state_subformulas, _checkQuantifiedFormula (object formula, F=None): writes go to objects allocated during the call, or to the label sets of the CLONE',
             'ASSUMED in the CTL* call graph: CTL.modelcheck called with an arbitrary formula object (cast leg) either raises TypeError or returns a new set and writes nothing older than the call; '
